@@ -373,6 +373,8 @@ func runC20(w *World, r *Report, tier string) {
 			}
 			if storeIdx < 0 {
 				badR1 = "the normalised address is not stored into the configuration"
+			} else if copyIdx < 0 && storeIntoTransport && !viaTransportCopy {
+				// the transport's configuration is filled field by field; its address receives the normalised one directly
 			} else if copyIdx < 0 {
 				badR1 = "the transport is not built from the (normalised) configuration"
 			} else if viaTransportCopy && copyIdx > epIdx {
